@@ -298,7 +298,7 @@ class Gen:
             return rng.choice(["PASS x", "USER a b c d", "CAP LS", "CAP LIST", "CAP REQ :multi-prefix", "CAP END",
                                "CAP REQ :foo", "AUTHENTICATE"])
         if v == "MISC":
-            return rng.choice(["MOTD", "VERSION", "ADMIN", "INFO", "TIME", "STATS u", "STATS m", "STATS x", "LINKS",
+            return rng.choice(["MOTD", "VERSION", "ADMIN", "INFO", "TIME", "STATS u", "STATS m", "STATS x", "STATS c", "STATS o", "STATS l", "LINKS",
                                "HELP", "HELP COMMANDS", "HELP nothing", "REHASH", "RESTART", "CONNECT a.b 6667",
                                "MOTD irc.irc", "TIME irc.irc", "LINKS a.b c.d", "VERSION x", "ADMIN *.irc"])
         # BAD: malformed / odd lines
